@@ -124,6 +124,26 @@ finiteT = sym('finiteT', (T,), B, lambda a: bool(_np.isfinite(a).all()))
 zerosl = sym('zerosl', (T,), T, lambda a: _np.zeros_like(a))
 zerosmm = sym('zerosmm', (T, T), T, lambda a, b: _np.zeros_like(a) @ b)
 
+arange = sym('arange', (I,), T, lambda n: _np.arange(int(n)))
+vstack3 = sym('vstack3', (T,), T, lambda a: _np.vstack(a))
+uniqueT = sym('uniqueT', (T,), T, None)
+unique_inv = sym('unique_inv', (T,), T, None)
+unique_counts = sym('unique_counts', (T,), T, None)
+argsortT = sym('argsortT', (T,), T, lambda a: _np.argsort(a))
+whereT = sym('whereT', (T,), T, lambda a: _np.where(a)[0])
+fnorm = sym('fnorm', (T,), R, lambda a: float(_np.linalg.norm(a)))
+cov = sym('cov', (T,), T, lambda X: _np.atleast_2d(_np.cov(X, rowvar=False)))
+covb = sym('covb', (T,), T, lambda X: _np.atleast_2d(_np.cov(X, rowvar=False, bias=True)))
+pinv = sym('pinv', (T,), T, lambda a: _np.linalg.pinv(a))
+inv = sym('inv', (T,), T, lambda a: _np.linalg.inv(a))
+logabsdet = sym('logabsdet', (T,), R, lambda a: float(_np.linalg.slogdet(a)[1]))
+reshapeT = sym('reshapeT', (T,), T, None)
+normalize_rows = sym('normalize_rows', (T,), T, lambda a: a / _np.linalg.norm(a, axis=1, keepdims=True))
+pdist2 = sym('pdist2', (T,), T, None)
+glasso = sym('glasso', (T, R), T, None)
+
+indexer_of = sym('indexer_of', (_Ref,), _Ref, None)       # the ArrayIndexer callable built from an array-like preprocessor
+
 # ---- spec functions (contract vocabulary)
 mdist = sym('mdist', (T, T, T), R,                         # d_L(x, y) = || L (x - y) ||_2
             lambda L, x, y: float(_np.sqrt(((L @ (x - y)) ** 2).sum())))
@@ -205,6 +225,10 @@ ax('row_cols2_0', 'lib', [a, i, j, n], row(row(cols2(a, j, n), i), 0) == row(row
    [z3.MultiPattern(row(cols2(a, j, n), i))], ['row', 'cols2'], ieee=True, gen=dict(a='ten(n,4,d)', i='idx(n)', j='idx(4)', n='idx(4)'))
 ax('row_cols2_1', 'lib', [a, i, j, n], row(row(cols2(a, j, n), i), 1) == row(row(a, i), n),
    [z3.MultiPattern(row(cols2(a, j, n), i))], ['row', 'cols2'], ieee=True, gen=dict(a='ten(n,4,d)', i='idx(n)', j='idx(4)', n='idx(4)'))
+for _n in _cmpz:
+  ax('pm1_of_cmp_%s' % _n, 'math', [a, s], all_pm1(ssub(smul(z3.RealVal(2), cmps(_n)(a, s)), z3.RealVal(1))),
+     [z3.MultiPattern(ssub(smul(z3.RealVal(2), cmps(_n)(a, s)), z3.RealVal(1)))], ['ssub', 'smul', 'cmp_%s_s' % _n], lean='two_mul_indicator_sub_one',
+     gen=dict(a='vec(n)', s='real'))
 # score of the triplet / quadruplet classifiers: mean of a +-1 vector
 ax('mean_pm1', 'math', [a], z3.Implies(all_pm1(a), vmean(a) / 2 + z3.RealVal(1) / 2 == frac_pos(a)),
    [z3.MultiPattern(vmean(a))], ['vmean'], lean='mean_pm1_eq_frac_pos', gen=dict(a='pm1(n)'))
